@@ -194,6 +194,11 @@ def gen_movie(rng, tier, kind=None):
     signed = kind == 'signed'
     if signed:
         kind = 'complete'
+    # 'hot': a 'complete' layout with static hot pixels (brighter than any blob's peak, but with a mask mass far below
+    # minmass) sitting farther than separation and closer than search_range from a blob; minmass > 0, no preprocessing.
+    # A hot pixel is never a feature; a withheld blob next to one must still be re-found (the brightest candidate by
+    # PEAK is not the brightest by MASS)
+    hot = kind == 'complete' and not signed and rng.random() < 0.25
     sr = rng.choice([3, 3.5, 4, 5, 5, 6])
     sep = rng.choice([7, 9, 9, 11])
     if kind == 'dense':
@@ -211,6 +216,9 @@ def gen_movie(rng, tier, kind=None):
     amp, sig = rng.choice([(200, 1.5), (220, 2.0), (150, 1.5)])
     if kind == 'dense':
         dia, rad, sig, pre = None, 2, 1.0, False
+    if hot:
+        sr, sep, dia, rad, sig, pre = rng.choice([7, 8]), 5, None, 2, 1.0, False
+        amp = rng.choice([150, 200, 220])
     S = rng.choice([64, 72, 80]) if kind in ('complete', 'dense') else rng.choice([40, 48, 56])
     shape = (S, S + rng.choice([0, 8]))
     tracks = []
@@ -242,7 +250,7 @@ def gen_movie(rng, tier, kind=None):
         p0 = place(rng, rng.randint(3, 8), shape, lo, dmin)
         cur = list(p0)
         tracks = [[p] for p in p0]
-        st = steps_within(sr)
+        st = steps_within(sr) if not hot else steps_within(2.5)
         for t in range(1, nfr):
             new = []
             for i, p in enumerate(cur):
@@ -267,6 +275,8 @@ def gen_movie(rng, tier, kind=None):
         # without preprocessing low noise is added and cut by a minmass well below the blob mass.
         if signed:
             pre, noise_kind, minmass = False, 'none', 0
+        elif hot:
+            pre, noise_kind, minmass = False, 'none', 400
         elif rng.random() < 0.3:
             # mixed brightness with a lowered percentile: faint blobs whose peak lies between the user's percentile and
             # the default 64th percentile of the (bandpassed) frame; they are tracked only because the user lowered
@@ -362,13 +372,33 @@ def gen_movie(rng, tier, kind=None):
     percentile = 64
 
     gain = [1.0] * nfr
+    hotmap = None
+    if hot:
+        hotmap = np.zeros(shape, dtype=int)
+        nhot = 0
+        for tr in tracks:
+            offs = [(dy, dx) for dy in range(-7, 8) for dx in range(-7, 8) if 36 <= dy * dy + dx * dx <= 49]
+            rng.shuffle(offs)
+            for dy, dx in offs:
+                h = (tr[0][0] + dy, tr[0][1] + dx)
+                if not (rad + 2 <= h[0] < shape[0] - rad - 2 and rad + 2 <= h[1] < shape[1] - rad - 2):
+                    continue
+                # farther than separation (+1) from every blob in every frame, within search_range (-1) of this blob's previous
+                # position in every frame after the first
+                far = all((h[0] - o[t][0]) ** 2 + (h[1] - o[t][1]) ** 2 > (sep + 1) ** 2 for o in tracks for t in range(nfr))
+                near = all((h[0] - tr[t - 1][0]) ** 2 + (h[1] - tr[t - 1][1]) ** 2 <= (sr - 1) ** 2 for t in range(1, nfr))
+                if far and near and hotmap[max(0, h[0] - 6):h[0] + 7, max(0, h[1] - 6):h[1] + 7].sum() == 0:
+                    hotmap[h] = 255; nhot += 1
+                    break
+        if nhot == 0:
+            hot = False; hotmap = None
 
     def render_all(amp_of):
         return [G.render(shape, [(tr[t][0], tr[t][1], amp_of(i) * gain[t], sig) for i, tr in enumerate(tracks) if tr[t] is not None],
-                         G.noise_texture(rng, shape, noise_kind)) for t in range(nfr)]
+                         hotmap if hotmap is not None else G.noise_texture(rng, shape, noise_kind)) for t in range(nfr)]
     frames = None
     fading = False
-    if kind == 'complete' and not signed and not mixed and noise_kind == 'none' and rng.random() < 0.45:
+    if kind == 'complete' and not signed and not mixed and not hot and noise_kind == 'none' and rng.random() < 0.45:
         # illumination drift / photobleaching: the whole frame gets dimmer (or brighter) from frame to frame, so the
         # brightness level that admits relocation candidates (a percentile of EACH frame) changes with the frame;
         # longer movies, detections withheld early and late.  Calibrated with the implementation: nothing withheld ->
@@ -443,7 +473,8 @@ def gen_movie(rng, tier, kind=None):
             out.append(g)
         frames = out
     return dict(kind=kind, frames=frames, tracks=tracks, sr=sr, sep=sep, dia=dia, rad=rad, memory=mem, preprocess=pre,
-                minmass=minmass, pw=pw, wseed=rng.randint(0, 2 ** 30), noise=noise_kind, percentile=percentile, mixed=mixed, fading=fading)
+                minmass=minmass, pw=(pw if not hot or pw > 0 else 0.6), wseed=rng.randint(0, 2 ** 30), noise=noise_kind, percentile=percentile, mixed=mixed, fading=fading,
+                hot=bool(hot))
 
 
 def run_movie(c, withhold=True):
@@ -694,6 +725,8 @@ def eval_movies(chk, movies, tag):
         nadded = sum(1 for t in rows if t >= 1 for x in rows[t] if (int(x['pos'][0]), int(x['pos'][1])) not in set(initial.get(t, dict(given=[]))['given']))
         nwith = sum(len(v['detected']) - len(v['given']) for t, v in initial.items() if t >= 1)
         chk.count(('movie', movie_json(c, rows, initial)), nadded >= 1)
+        if c.get('hot'):
+            chk.tally('movie with hot pixels next to the blobs (minmass > 0)')
         if c.get('fading'):
             chk.tally('movie with frame-to-frame brightness drift (%d frames)' % len(c['frames']))
         chk.tally('movie kind=%s' % c['kind']); chk.tally('percentile=%s%s' % (c.get('percentile', 64), ' (mixed brightness)' if c.get('mixed') else ''))
